@@ -1222,3 +1222,49 @@ where
     writer.write_all(b"\n")?;
     Ok(())
 }
+
+#[cfg(feature = "verif_hooks")]
+impl<R, P> Reader<R, P>
+where
+    R: io::Read,
+    P: BufPolicy,
+{
+    /// Read-only copy of the reader bookkeeping (monitoring hook)
+    pub fn verif_snapshot(&self) -> crate::verif_hooks::Snapshot {
+        crate::verif_hooks::Snapshot {
+            state: match self.state {
+                State::New => "New",
+                State::Parsing => "Parsing",
+                State::Incomplete => "Incomplete",
+                State::Positioned => "Positioned",
+                State::Finished => "Finished",
+            },
+            buf_len: self.get_buf().len(),
+            capacity: self.buf_reader.capacity(),
+            rec_start: self.buf_pos.start,
+            offsets: self.buf_pos.seq_pos.clone(),
+            search_pos: Some(self.search_pos),
+            incomplete: None,
+            pos_line: self.position.line,
+            pos_byte: self.position.byte,
+        }
+    }
+
+    /// The current buffer contents (monitoring hook)
+    pub fn verif_buffer(&self) -> &[u8] {
+        self.get_buf()
+    }
+
+    /// The current buffer capacity (monitoring hook)
+    pub fn verif_capacity(&self) -> usize {
+        self.buf_reader.capacity()
+    }
+}
+
+#[cfg(feature = "verif_hooks")]
+impl RecordSet {
+    /// The buffer of the record set (monitoring hook)
+    pub fn verif_buffer(&self) -> &[u8] {
+        &self.buffer
+    }
+}
